@@ -105,8 +105,10 @@ class LineIterator:
 
     def __next__(self):
         """Return the next line and increase the lineno attribute by one."""
+        line = self.stack.pop() if self.stack else next(self.fh)
+        # Only count lines that were actually read (not a failed attempt at the end of the file).
         self.lineno += 1
-        return self.stack.pop() if self.stack else next(self.fh)
+        return line
 
     def back(self, line):
         """Go back one line in the file and decrease the lineno attribute by one."""
